@@ -30,6 +30,7 @@ const (
 	kStruct
 	kNil
 	kRef // the address of a variable or field that does not hold a struct (e.g. &g.extra with extra a pointer)
+	kFunc // a function literal together with the frame it was created in
 )
 
 type val struct {
@@ -45,6 +46,8 @@ type val struct {
 	refField string         // kRef: the field
 	refObj   types.Object   // kRef: the frame variable
 	refFrame *e8frame
+	lit      *ast.FuncLit // kFunc
+	env      *e8frame     // kFunc: the defining frame (captured variables are shared)
 }
 
 func (v *val) refGet() *val {
@@ -162,6 +165,8 @@ type e8interp struct {
 	trace   []e8call     // opaque calls executed on this run, in order
 	opaque  map[*types.Func]bool // repository functions that must not be entered
 	frozen  map[types.Object]bool // variables whose assignments are ignored (they stay inputs)
+	opaquePkg map[*types.Package]bool // packages whose functions must not be entered
+	havoc   bool                  // variables written by a function literal handed to an opaque call become fresh atoms after the call
 }
 
 // e8call records one executed call whose body the interpreter does not enter
@@ -671,6 +676,9 @@ func (in *e8interp) eval(fr *e8frame, e ast.Expr) *val {
 	case *ast.CallExpr:
 		return in.call(fr, x)
 	}
+	if fl, ok := e.(*ast.FuncLit); ok {
+		return &val{k: kFunc, lit: fl, env: fr, typ: info.TypeOf(e)}
+	}
 	e8fail("unsupported expression %s", types.ExprString(e))
 	return nil
 }
@@ -714,7 +722,7 @@ func (in *e8interp) call(fr *e8frame, x *ast.CallExpr) *val {
 		}
 	}
 	fn, _ := callee.(*types.Func)
-	if fn != nil && !in.opaque[fn] && in.p.IsRepoPkg(fn.Pkg()) && in.p.Decl(fn) != nil && in.p.Decl(fn).Body != nil && in.depth < 6 {
+	if fn != nil && !in.opaque[fn] && !in.opaquePkg[fn.Pkg()] && in.p.IsRepoPkg(fn.Pkg()) && in.p.Decl(fn) != nil && in.p.Decl(fn).Body != nil && in.depth < 6 {
 		fd, pkg := in.p.Decl(fn), in.p.DeclPkg(fn)
 		nf := newFrame(pkg)
 		if sel, ok := ast.Unparen(x.Fun).(*ast.SelectorExpr); ok && fd.Recv != nil {
@@ -777,6 +785,36 @@ func (in *e8interp) call(fr *e8frame, x *ast.CallExpr) *val {
 		}
 		return &val{k: kStruct, f: map[string]*val{"0": res.vals[0], "1": res.vals[1]}}
 	}
+	// a call through a variable that holds a function literal: its body runs in the frame that created it
+	if id, ok := ast.Unparen(x.Fun).(*ast.Ident); ok && fn == nil && in.depth < 6 {
+		if fv, ok := fr.vars[info.ObjectOf(id)]; ok && fv != nil && fv.k == kFunc {
+			env, lpkg := fv.env, fv.env.pkg
+			i := 0
+			for _, f := range fv.lit.Type.Params.List {
+				for _, n := range f.Names {
+					if i < len(x.Args) {
+						av := in.eval(fr, x.Args[i])
+						if _, isPtr := info.TypeOf(x.Args[i]).Underlying().(*types.Pointer); isPtr {
+							env.vars[lpkg.TypesInfo.Defs[n]] = av
+						} else {
+							env.vars[lpkg.TypesInfo.Defs[n]] = av.clone()
+						}
+					}
+					i++
+				}
+			}
+			in.depth++
+			res := in.runBody(env, fv.lit.Body.List)
+			in.depth--
+			if res == nil || len(res.vals) == 0 {
+				return &val{k: kNil}
+			}
+			if len(res.vals) == 1 {
+				return res.vals[0]
+			}
+			return &val{k: kStruct, f: map[string]*val{"0": res.vals[0], "1": res.vals[1]}}
+		}
+	}
 	// opaque call: an atom named by the callee and the symbolic names of its arguments
 	var args []*val
 	var names []string
@@ -798,6 +836,36 @@ func (in *e8interp) call(fr *e8frame, x *ast.CallExpr) *val {
 		av := in.evalQuiet(fr, a)
 		args = append(args, av)
 		names = append(names, in.valName(av, a))
+	}
+	if in.havoc {
+		for _, a := range x.Args {
+			lit, ok := ast.Unparen(a).(*ast.FuncLit)
+			if !ok {
+				continue
+			}
+			mark := func(e ast.Expr) {
+				id, ok := e.(*ast.Ident)
+				if !ok {
+					return
+				}
+				o, isVar := info.ObjectOf(id).(*types.Var)
+				if !isVar || (lit.Pos() <= o.Pos() && o.Pos() < lit.End()) {
+					return
+				}
+				fr.vars[o] = in.newInput(o.Name()+"'", o.Type())
+			}
+			ast.Inspect(lit.Body, func(n ast.Node) bool {
+				switch st := n.(type) {
+				case *ast.AssignStmt:
+					for _, l := range st.Lhs {
+						mark(l)
+					}
+				case *ast.IncDecStmt:
+					mark(st.X)
+				}
+				return true
+			})
+		}
 	}
 	name := calleeName + "(" + strings.Join(names, ",") + ")"
 	short := calleeName
